@@ -95,12 +95,12 @@ func fieldLoadAny(v ssa.Value) (string, bool) {
 }
 
 type validation struct {
-	call  ssa.CallInstruction
-	slice ssa.Value
-	kind  string // exact | least | all
-	types []string
+	call   ssa.CallInstruction
+	slice  ssa.Value
+	kind   string // exact | least | all
+	types  []string
 	okEdge *ssa.BasicBlock // successor on which the validator returned nil
-	from  *ssa.BasicBlock
+	from   *ssa.BasicBlock
 }
 
 func validationsOf(u *Universe, f *ssa.Function) []validation {
@@ -253,6 +253,9 @@ func runBCE1(repo string, rels []string) ([]bceSite, error) {
 type bceEntry struct {
 	Reason string `json:"reason"`
 	Side   string `json:"side_condition,omitempty"`
+	// Given: the part of the argument that is the callers' obligation ("param1>=0"); with it the own prover must
+	// establish the rest, so the entry does not mask a later change of the function itself
+	Given []string `json:"given,omitempty"`
 }
 
 // ruleBCE: every bounds check the compiler cannot eliminate is discharged by a validator or listed
@@ -409,6 +412,25 @@ func ruleBCE(c *Ctx, u *Universe, rule string, rels []string, fileFilter func(st
 		}
 		if e, ok := table[key]; ok {
 			used[key] = true
+			if len(e.Given) > 0 {
+				var lb token.Pos
+				switch x := node.(type) {
+				case *ast.IndexExpr:
+					lb = x.Lbrack
+				case *ast.SliceExpr:
+					lb = x.Lbrack
+				}
+				why := ""
+				if f := u.ssaFunc(rel, declName(fd)); f != nil {
+					why = proveSiteGiven(f, lb, node, e.Given)
+				}
+				if why == "" {
+					R.viol(rule, key, pos, "the reviewed argument no longer proves this index: given "+strings.Join(e.Given, ", ")+" (the callers' obligation) the function itself must establish the remaining bound ("+e.Reason+")")
+				} else {
+					R.hold(rule, key, pos, "reviewed: given "+strings.Join(e.Given, ", ")+" - "+why)
+				}
+				continue
+			}
 			if e.Side != "" {
 				if msg := bceSideCondition(u, e.Side); msg != "" {
 					R.viol(rule, key, pos, "the invariant that justifies this index no longer holds: "+msg)
@@ -582,11 +604,20 @@ func bceSideCondition(u *Universe, name string) string {
 			return "IdInRange not found"
 		}
 		// the midpoint: (e+s)/2 ; bounds s,e are phis whose loop-carried values are exactly the midpoint
+		// the midpoint: (lo+hi)/2, or its overflow-free spelling lo + (hi-lo)/2
 		var mid ssa.Value
 		for _, in := range instrsOf(f) {
 			if bo, ok := in.(*ssa.BinOp); ok && bo.Op == token.QUO {
 				if k, ok := bo.Y.(*ssa.Const); ok && k.Int64() == 2 {
 					mid = bo
+					if sub, isSub := bo.X.(*ssa.BinOp); isSub && sub.Op == token.SUB {
+						for _, in2 := range instrsOf(f) {
+							if add, isAdd := in2.(*ssa.BinOp); isAdd && add.Op == token.ADD &&
+								((add.X == sub.Y && add.Y == ssa.Value(bo)) || (add.Y == sub.Y && add.X == ssa.Value(bo))) {
+								mid = add
+							}
+						}
+					}
 				}
 			}
 		}
@@ -915,6 +946,14 @@ func ruleNilNil(c *Ctx, u *Universe, rule string, rels []string) {
 				if isNilConst(retValue(ret, 0)) && isNilConst(retValue(ret, 1)) {
 					bad = u.pos(ret.Pos())
 				}
+				// a result variable that can still hold its zero value (nil) when the function returns normally
+				if rv := retValue(ret, 0); !isNilConst(rv) && ret.Pos().IsValid() && ret.Block() != f.Recover && normalReturn(f, ret, nilTests(f)) {
+					for _, src := range allSources(rv) {
+						if isNilConst(src) {
+							bad = u.pos(ret.Pos()) + " (the result variable can still be nil there: no value was assigned on some path)"
+						}
+					}
+				}
 				// a slot getter that answers nil when nothing was stored (return slot, receiver) is not handed on as a
 				// value unless a nil test stands in between
 				if ev := retValue(ret, 1); isNilConst(ev) || !provablyNonNilError(ev) {
@@ -937,7 +976,7 @@ func checkC10(c *Ctx) {
 		"(C10.nilret) no function returning (runtime.Element, error) - built-ins, library functions, GetProperty/ExecMethod/Construct, evaluator functions - returns (nil, nil); " +
 		"(C10.nilrecv) results of VM.getCurrentScope()/getCurrentCallFrame() are used only under a nil test and getCurrentCallFrame guards the empty stack; " +
 		"(C10.exit) no os.Exit / log.Fatal / panic is reachable from Interpreter.Execute or ExecVarInputText except the parser's error-typed panics recovered by Parser.Parse (VTA call graph). " +
-		"C10.index sites are first tried with the own symbolic bounds prover (bounds.go: dominating comparisons, monotone loop phis, len equalities, helper summaries) and only then looked up in the reviewed table (keys name the function and the expression with locals replaced by their types; a moved expression may claim a stale entry once). C10.exit accepts panics only below a function that defers a recover handler storing the recovered error (must-pass-through on the call graph). (C10.dictsync = C12.sync, C10.tmpl = C14.tmpl) invariants the reviewed index sites rest on. (C10.nilfield) nil-able pointer fields are dereferenced only behind a nil test; C10.nilret also rejects returning the possibly-empty return slot / receiver slot as a value. NOT decided: stack exhaustion by deep recursion, memory exhaustion, results of float->int conversions, stdlib/http (does not compile at the pinned commit)."
+		"C10.index sites are first tried with the own symbolic bounds prover (bounds.go: dominating comparisons, monotone loop phis, len equalities, helper summaries) and only then looked up in the reviewed table (keys name the function and the expression with locals replaced by their types; a moved expression may claim a stale entry once). C10.exit accepts panics only below a function that defers a recover handler storing the recovered error (must-pass-through on the call graph). (C10.dictsync = C12.sync, C10.tmpl = C14.tmpl) invariants the reviewed index sites rest on. (C10.nilfield) nil-able pointer fields are dereferenced only behind a nil test; C10.nilret also rejects returning the possibly-empty return slot / receiver slot as a value. NOT decided: stack exhaustion by deep recursion, memory exhaustion, results of float->int conversions, stdlib/http (does not compile at the pinned commit). (C10.nilresult) the pointer a module function returns together with an error is not dereferenced when the error was discarded."
 	R.Assumptions = []string{"the compiler's prove pass is sound (a bounds check it removes cannot fail)", "tables/bce.json and tables/assert_allow.json were reviewed entry by entry (one reason each)", "VTA call graph over-approximates dynamic calls through FuncExecutor values"}
 	u := c.Core()
 	u.buildSSA()
@@ -961,6 +1000,74 @@ func checkC10(c *Ctx) {
 
 	// ---- C10.nilfield: nil-able pointer fields are dereferenced only behind a nil test
 	ruleNilFields(c, u, "C10.nilfield", func(file string) bool { return !strings.HasPrefix(file, "pkg/syntax/") })
+
+	// ---- C10.nilresult: the value a module function returns together with an error is not used when the error was
+	// thrown away: `v, _ := f(); v.M()` crashes on the nil v of f's error exits
+	nNR := 0
+	for _, rel := range []string{"pkg/common", "pkg/exec", "pkg/runtime", "pkg/value", "stdlib/file", "stdlib/json"} {
+		for _, f := range u.srcFuncs(rel) {
+			for _, in := range instrsOf(f) {
+				call, ok := in.(*ssa.Call)
+				if !ok {
+					continue
+				}
+				callee := call.Call.StaticCallee()
+				if callee == nil || callee.Blocks == nil || callee.Pkg == nil || !strings.HasPrefix(callee.Pkg.Pkg.Path(), modPath) {
+					continue
+				}
+				res := callee.Signature.Results()
+				if res.Len() != 2 || !isErrorType(res.At(1).Type()) {
+					continue
+				}
+				if _, isPtr := res.At(0).Type().Underlying().(*types.Pointer); !isPtr {
+					continue
+				}
+				var val, errX *ssa.Extract
+				for _, r := range *call.Referrers() {
+					if ex, isEx := r.(*ssa.Extract); isEx {
+						if ex.Index == 0 {
+							val = ex
+						} else {
+							errX = ex
+						}
+					}
+				}
+				if val == nil || (errX != nil && len(*errX.Referrers()) > 0) {
+					continue
+				}
+				// the callee answers nil on some exit
+				nilExit := false
+				for _, b := range callee.Blocks {
+					if ret, isRet := b.Instrs[len(b.Instrs)-1].(*ssa.Return); isRet && len(ret.Results) == 2 {
+						for _, src := range allSources(retValue(ret, 0)) {
+							if isNilConst(src) {
+								nilExit = true
+							}
+						}
+					}
+				}
+				if !nilExit {
+					continue
+				}
+				derefs := false
+				for _, r := range *val.Referrers() {
+					switch x := r.(type) {
+					case *ssa.FieldAddr:
+						derefs = derefs || x.X == ssa.Value(val)
+					case *ssa.UnOp:
+						derefs = derefs || (x.Op == token.MUL && x.X == ssa.Value(val))
+					case ssa.CallInstruction:
+						if len(x.Common().Args) > 0 && x.Common().Args[0] == ssa.Value(val) && x.Common().StaticCallee() != nil && x.Common().StaticCallee().Signature.Recv() != nil {
+							derefs = true
+						}
+					}
+				}
+				nNR++
+				R.check(!derefs, "C10.nilresult", u.fname(f)+":"+siteName(u, f, call), u.pos(call.Pos()), "the value is not dereferenced", "the error of this call is thrown away and the returned pointer is used at once: on the callee's error exits it is nil and the process crashes with a nil pointer dereference")
+			}
+		}
+	}
+	R.count("discarded_error_with_pointer_result", nNR)
 
 	// ---- C10.nilrecv
 	for _, getter := range []string{"pkg/runtime.VM.getCurrentScope", "pkg/runtime.VM.getCurrentCallFrame"} {
